@@ -137,6 +137,8 @@ def generate(tier, seed):
                      "(dolist (%s (list %s 2 3)) nil)" % (k, v), "(dotimes (%s 2) nil)" % k, "(progn (defun cf (&optional %s) 1) (cf %s))" % (k, v), "(setq %s %s)" % (k, v),
                      "(set '%s %s)" % (k, v), "(if-let ((%s %s)) 1 2)" % (k, v), "(progn (defmacro cm (%s) 1) (cm %s))" % (k, v), "(mapcar (lambda (%s) 1) (list %s))" % (k, v),
                      "(seq-reduce (lambda (%s b) 1) (list %s) %s)" % (k, v, v), "(let ((h (make-hash-table))) (puthash %s %s h) (gethash %s h))" % (k, v, k)]
+    for v in ks:
+        reqs += ["(progn (setq gensym-counter %s) (list (gensym) (gensym \"p\")))" % v, "(let ((gensym-counter %s)) (gensym))" % v, "(progn (setq gensym-counter %s) (list (gensym) gensym-counter (gensym) gensym-counter))" % v]
     # random programs with extreme numerals
     for _ in range(5000 if tier == "quick" else 200000):
         g = ProgGen(rng, max_depth=3, ticks=False, loops=False)   # literal replacement must not touch loop bounds
